@@ -75,7 +75,9 @@ def sweep(tier):
         for c0 in cols:
             line = 'a' * c0 + 'B' + 'c' * (L - c0 - 1)
             for where in ('only', 'first', 'middle', 'last', 'last-nl'):
-                if where != 'only' and tier == 'quick' and (c0 % 3 != L % 3):
+                # quick tier thins the multi-line placements, but never at the distances from the end of the line where
+                # the abbreviation regimes change (a thinning rule correlated with L - c0 once hid the distance 41)
+                if where != 'only' and tier == 'quick' and (c0 % 3 != L % 3) and not (36 <= L - c0 <= 48):
                     continue
                 if where == 'only':
                     text, off = line, 0
@@ -131,7 +133,9 @@ def sweep(tier):
     for text, index in [('aaa\nBaa\naaa\n', 4), ('aaaBaB', 3), ('aaaaaB', 5), ('a\n\nB', 3), ('\nB', 1), ('B', 0), ('ab\nB\n', 3),
                         ('ab\nB', 3), ('\n\n\nBx', 3),
                         # a carriage return is an ordinary character: only '\\n' ends a line
-                        ('ab\r\ncd\r\nBx', 8), ('a\rb\rB', 4), ('\r\nB', 2), ('ab\r\ncB', 5)]:
+                        ('ab\r\ncd\r\nBx', 8), ('a\rb\rB', 4), ('\r\nB', 2), ('ab\r\ncB', 5),
+                        # an error located in white space that runs to the end of the text is not "end of input"
+                        ('abc ', 3), ('abc\t', 3), ('ab\ncd   ', 5), ('abc \n', 3), (' ', 0), ('a\n \n', 2)]:
         if index is None:
             continue
         n += 1
@@ -149,7 +153,7 @@ def sweep(tier):
                         bad.append(_viol(kind, text, index, complaint))
     # bytes input: a single line, no caret
     modb, _ = realrun.compile_grammar('start = [b/[a-z\\n]*/, b"!"]\n')
-    for text in [b'abcB', b'ab\ncdBef', b'a' * 200 + b'B' + b'c' * 100]:
+    for text in [b'abcB', b'ab\ncdBef', b'a' * 200 + b'B' + b'c' * 100, b'\n\nB', b'ab\ncd\nBe\n']:
         n += 1
         try:
             modb.parse(text)
@@ -160,6 +164,19 @@ def sweep(tier):
                 bad.append(_viol('ParseError', text.decode(), idx, f'bytes index {exc.position.index}'))
             if '^' in msg[2] and re.fullmatch(r' *\^', msg[2]):
                 bad.append(_viol('ParseError', text.decode(), idx, 'caret line in a bytes message'))
+            # a bytes text is one line: iterating it yields integers, none of which is a line break
+            if (exc.position.line, exc.position.column) != (1, idx + 1):
+                bad.append(_viol('ParseError', text.decode(), idx, f'bytes position {tuple(exc.position)} != {(idx, 1, idx + 1)}'))
+    modbp, _ = realrun.compile_grammar('start = b/[a-z\\n]*/\n')
+    for text in [b'abcB', b'ab\ncdBef', b'\n\nB', b'ab\ncd?e\n']:
+        n += 1
+        idx = min(i for i, c in enumerate(text) if not (97 <= c <= 122 or c == 10))
+        try:
+            modbp.parse(text)
+        except modbp.PartialParseError as exc:
+            pos = exc.last_position
+            if (pos.index, pos.line, pos.column) != (idx, 1, idx + 1):
+                bad.append(_viol('PartialParseError', text.decode(), idx, f'bytes position {tuple(pos)} != {(idx, 1, idx + 1)}'))
     return n, nontrivial, samples, bad
 
 
